@@ -47,6 +47,10 @@ def template_of(cfg):
             + "".join("{end_%s}" % f for f in TIME_FIELDS[:cfg["depth"]])
     elif cfg["end"] == "time":
         end = "-" + "".join("{end_%s}" % f for f in TIME_FIELDS[:cfg["depth"]])
+    elif cfg["end"] in ("time-m", "time-s"):
+        # the end is spelled from the minute / second downwards only: completed from the start, rolled over by the next
+        # coarser unit (hour / minute)
+        end = "-" + "".join("{end_%s}" % f for f in TIME_FIELDS[(1 if cfg["end"] == "time-m" else 2):cfg["depth"]])
     else:
         end = ""
     user = "{satname}_" if cfg.get("user") else ""
@@ -85,6 +89,10 @@ def roundtrip(s, e, cfg):
     fill = {"satname": "NOAA-18.a"} if cfg.get("user") else None
     if cfg["end"] == "time":
         requires(e - s < timedelta(days=1))
+    elif cfg["end"] == "time-m":
+        requires(e - s < timedelta(hours=1))
+    elif cfg["end"] == "time-s":
+        requires(e - s < timedelta(minutes=1))
     name = fs.get_filename((s, e), fill=fill)
     # intermediate facts (same real code, called directly): the parsed fields reconstruct s and e
     sa, ea = fs._to_datetime_args(fs.parse_filename(name))
@@ -100,6 +108,9 @@ def roundtrip(s, e, cfg):
     elif cfg["end"] == "time":
         # the end takes its date from the start and moves to the next day when it would precede the start
         ensures(info.times[1] == e, id="end == e (time-only end fields, s <= e < s + 1 day)")
+    elif cfg["end"] in ("time-m", "time-s"):
+        ensures(info.times[1] == e, id="end == e (end spelled from the %s downwards, roll-over by the next coarser unit)"
+                % ("minute" if cfg["end"] == "time-m" else "second"))
     else:
         ensures(info.times[1] == s, id="no end fields, no time_coverage: discrete file, end == start")
     if cfg.get("user"):
@@ -124,8 +135,10 @@ roundtrip.__pyvc_thm__ = True
 def _cfgs(tier):
     out = []
     for year, date, depth, end, layout, user in itertools.product(
-            ("year", "year2"), ("md", "doy"), (0, 1, 2, 3, 4), ("none", "complete", "time"), ("flat", "dirs", "dup"), (False, True)):
+            ("year", "year2"), ("md", "doy"), (0, 1, 2, 3, 4), ("none", "complete", "time", "time-m", "time-s"), ("flat", "dirs", "dup"), (False, True)):
         if end == "time" and depth == 0:
+            continue
+        if (end == "time-m" and depth < 2) or (end == "time-s" and depth < 3):
             continue
         out.append(dict(year=year, date=date, depth=depth, end=end, layout=layout, user=user))
     if tier == "thorough":
@@ -157,8 +170,9 @@ def _sampler_for(cfg):
             t = [rng.randint(0, 23), rng.randint(0, 59), rng.randint(0, 59), rng.randint(0, 999) * 1000][:cfg["depth"]]
             return d.replace(**dict(zip(["hour", "minute", "second", "microsecond"], t)))
         s = rdt()
-        if cfg["end"] == "time":
-            e = s + timedelta(seconds=rng.randint(0, 86399))
+        if cfg["end"] in ("time", "time-m", "time-s"):
+            span = {"time": 86399, "time-m": 3599, "time-s": 59}[cfg["end"]]
+            e = s + timedelta(seconds=rng.randint(0, span), milliseconds=rng.randint(0, 999) if cfg["depth"] == 4 else 0)
             e = e.replace(**{f: 0 for f in ["hour", "minute", "second", "microsecond"][cfg["depth"]:]})
             if e < s:
                 e = s
